@@ -742,6 +742,12 @@ def index_items(tier):
             for m in (2, 3, 4, 5):
                 items.append({"cfg": {"type": "povm", "shape": shape, "flag": flag, "m": m}})
                 items.append({"cfg": {"type": "mprocess", "shape": shape, "flag": flag, "m": m}})
+    # the flag handed to the module-level index converters as numpy bool / int as well (the values decide, not the type):
+    # cheap shapes only
+    for it in list(items):
+        if it["cfg"]["shape"] in ("1q", "qutrit"):
+            for rep in ("np_bool", "int"):
+                items.append({"cfg": dict(it["cfg"]), "flag_rep": rep})
     # expensive configurations first so that the stride sharding balances
     items.sort(key=lambda it: -_lens(it["cfg"])[0])
     return items
@@ -832,7 +838,10 @@ def check_index_maps(case, ctx):
         return
     ctx.close(v0, var0, 0.0, "base:var")
     tol = tol_for(d, var0)
-    to_obj, to_var = _index_fns(t, c_sys, base, flag)
+    rep = case.get("flag_rep", "py")
+    ctx.label("flag_rep:" + rep)
+    flag_arg = np.bool_(flag) if rep == "np_bool" else int(flag) if rep == "int" else flag
+    to_obj, to_var = _index_fns(t, c_sys, base, flag_arg)
     seen = set()
     for i in range(nv):
         o_raw = to_obj(i)
